@@ -684,6 +684,8 @@ enum Expect {
     DanglingStripped,
     /// accepted or rejected at either layer, never a panic
     NoPanicOnly(Option<String>),
+    /// a malformed value: rejected while parsing the document, or reported for and dropped with that appender
+    RejectedSomewhere(String),
     /// the mutation could not be applied to this configuration
     NotApplicable,
 }
@@ -895,7 +897,14 @@ fn apply(doc: &mut DV, lc: &LC, m: &Mutant) -> Expect {
             if value.ends_with("+modulate") {
                 d.insert("modulate", DV::Bool(true));
             }
-            Expect::NoPanicOnly(Some(a.name.clone()))
+            // malformed beyond doubt (negative for an unsigned field, not representable in the field's type):
+            // must be rejected, at the document layer (a format that cannot express it) or for that appender
+            let must_reject = value.starts_with('-') || value == "4294967296" || value.len() >= 30;
+            if must_reject {
+                Expect::RejectedSomewhere(a.name.clone())
+            } else {
+                Expect::NoPanicOnly(Some(a.name.clone()))
+            }
         }
     }
 }
@@ -971,6 +980,18 @@ fn check_mutant_in(base: &Path, m: &Mutant, obs: &mut Obs) -> CaseResult {
     };
     obs.sub_evals += 1;
     let layer;
+    let expect = match expect {
+        Expect::RejectedSomewhere(name) => {
+            if parsed.is_err() {
+                ensure!(loaded.is_err(), "C14:malformed-accepted", "{}: the document does not parse but load_config_file accepted it", what);
+                obs.nontrivial = true;
+                obs.class("layer=malformed-value(document)");
+                return Ok(());
+            }
+            Expect::AppenderDropped(name)
+        }
+        e => e,
+    };
     match &expect {
         Expect::DocumentRejected => {
             layer = "document";
@@ -1030,7 +1051,7 @@ fn check_mutant_in(base: &Path, m: &Mutant, obs: &mut Obs) -> CaseResult {
             // accepted or rejected, at either layer: the statement demands only that loading never panics
             let _ = (loaded, name);
         }
-        Expect::NotApplicable => unreachable!(),
+        Expect::NotApplicable | Expect::RejectedSomewhere(_) => unreachable!(),
     }
     obs.nontrivial = layer != "document";
     obs.class(format!("layer={}", layer));
